@@ -120,6 +120,12 @@ pub fn extra_pool() -> Vec<File> {
             out.push(File { lets: vec![], rules: vec![rule("r0", vec![vec![c.clone(), lp[0].clone()]]), rule("r1", vec![vec![lp[1].clone()], vec![c]])], default: vec![] });
         }
     }
+    // filters whose own tests are not checks of the rule: a key filter that rejects some keys, a filter on the scalars selected
+    // by `[*]` that drops some elements (the clause behind the filter fails on what is left)
+    out.push(file1(rule("r0", vec![vec![bin(vec![key("a"), Part::KeysFilter(false, BinOp::Eq, V::Regex("^a".into()))], BinOp::Eq, false, i(9))]])));
+    out.push(file1(rule("r0", vec![vec![bin(vec![Part::This, Part::KeysFilter(false, BinOp::Eq, s("a"))], BinOp::Eq, false, i(9))], vec![lp[1].clone()]])));
+    out.push(file1(rule("r0", vec![vec![bin(vec![key("a"), Part::All, Part::Filter(vec![vec![bin(vec![Part::This], BinOp::Eq, true, i(1))]])], BinOp::Eq, false, i(9))]])));
+    out.push(file1(rule("r0", vec![vec![bin(vec![key("a"), Part::All, Part::Filter(vec![vec![un(vec![key("b")], UnOp::Exists, false)]]), key("b")], BinOp::Eq, false, i(9))]])));
     // an `or` line whose alternative is a block holding its own `or` line (nested disjunctions), a when block, a call;
     // two-level parameterised calls, each with its own message
     let inner_or = Clause::Block { some: false, q: vec![key("a"), Part::All], not_empty: false, lets: vec![], body: vec![vec![bin(vec![key("b")], BinOp::Eq, false, i(8)), bin(vec![key("b")], BinOp::Eq, false, i(9))], vec![un(vec![key("zz")], UnOp::Exists, false)]] };
